@@ -378,6 +378,15 @@ func genC17(t *rapid.T) c17Case {
 				k := rapid.IntRange(0, len(s)-1).Draw(t, "malAt")
 				return s[:k] + rapid.SampledFrom([]string{"_", "z", " ", ","}).Draw(t, "malR") + s[k+1:]
 			}
+		case 4, 5:
+			// one character replaced by a byte that is NOT a digit but looks like one to a nibble / range test: the
+			// neighbours of '0'..'9' (/ : ; < = > ?), digits with another high nibble (0x10.., 0x40.., 0xB0..), full-width
+			if len(s) > 0 {
+				k := rapid.IntRange(0, len(s)-1).Draw(t, "nbAt")
+				d := byte(rapid.IntRange(0, 9).Draw(t, "nbD"))
+				r := rapid.SampledFrom([]string{"/", ":", ";", "<", "=", ">", "?", string([]byte{0x10 + d}), string([]byte{0x20 + d}), string([]byte{0x40 + d}), string([]byte{0x70 + d}), string([]byte{0xB0 + d}), string([]byte{0xF0 + d}), "\uff10", "\u0660"}).Draw(t, "nbR")
+				return s[:k] + r + s[k+1:]
+			}
 		}
 		return s
 	}
